@@ -19,8 +19,8 @@ theorem confF_nil_data (s : Schema) (rt : ReqType) (es : Entities) (req : Reques
     ∀ (c : Fields), ConfF s rt es req c attrs []
   | [] => by simp [ConfF]
   | (f, t) :: rest => by
-    simp only [ConfF, lookupKV]
-    exact ⟨fun w hw => by cases hw, confF_nil_data s rt es req attrs rest⟩
+    simp only [ConfF]
+    exact ⟨fun w hw => by simp [lookupKV] at hw, confF_nil_data s rt es req attrs rest⟩
 
 theorem euidLiteralType_some {s : Schema} {u : EntityUID} {ty : CedarType}
     (h : Manifest.euidLiteralType s u = some ty) : ty = .entity [u.ty] := by
@@ -44,6 +44,7 @@ variable (hWF : SchemaClosed s) (hst : StoreConforms s es) (hreq : ConformsReque
 variable (hp : req.principal.ty = rt.principal) (ha : req.action = rt.action) (hr : req.resource.ty = rt.resource)
 include hWF hst hreq hp ha hr
 
+set_option linter.unusedSectionVars false in
 mutual
 /-- a value of a (closed, distinct-keys) type conforms to it as far as ANY trie looks -/
 theorem confV_inst : ∀ (t : AccessTrie) (ty : CedarType) (v : Value), cn ty = true → InstanceOfType v ty →
